@@ -460,6 +460,18 @@ func (e *Engine) oblige(cond string, what string) {
 	}
 }
 
+// probe records a solver witness for an input that leaves the encodable fragment on this path (e.g. non-ASCII
+// content at a rune conversion). The engine cannot follow the code there; the witness is replayed against the native
+// build instead, and only a natively failing run is reported (a native pass proves nothing and is not counted).
+func (e *Engine) probe(what string) {
+	if e.S.Check() != "sat" {
+		return
+	}
+	e.modelSummary()
+	e.lastCex.What = "PROBE " + what
+	e.Cex = append(e.Cex, e.lastCex)
+}
+
 type Cex struct {
 	Slack string
 	What  string
@@ -1032,6 +1044,7 @@ func (e *Engine) eval(f *frame, v ssa.Value) any {
 				ascii := SymBool{"(str.in_re " + ex + " (re.* (re.range \"\\u{0}\" \"\\u{7f}\")))"}
 				if !e.branch(ascii) {
 					e.inconclusive = append(e.inconclusive, "rune conversion of non-ASCII content at "+relPath(f.fn.Prog.Fset.Position(x.Pos()).String())+": UTF-8 decoding is not encoded")
+					e.probe("non-ASCII content at the rune conversion in " + relPath(f.fn.Prog.Fset.Position(x.Pos()).String()))
 					panic(pathEnd{"UNSUPPORTED non-ASCII rune conversion"})
 				}
 			}
@@ -1069,6 +1082,7 @@ func (e *Engine) eval(f *frame, v ssa.Value) any {
 			ex := strE(xv)
 			if !e.branch(SymBool{"(str.in_re " + ex + " (re.* (re.range \"\\u{0}\" \"\\u{7f}\")))"}) {
 				e.inconclusive = append(e.inconclusive, "range over non-ASCII string at "+relPath(f.fn.Prog.Fset.Position(x.Pos()).String())+": UTF-8 decoding is not encoded")
+				e.probe("non-ASCII content at the range over a string in " + relPath(f.fn.Prog.Fset.Position(x.Pos()).String()))
 				panic(pathEnd{"UNSUPPORTED range over non-ASCII string"})
 			}
 			n := e.concretize(SymInt{"(str.len " + ex + ")"})
